@@ -56,7 +56,9 @@ RULE = (
 
 CFG = {"op": "parse_seesaw", "oracle": "c19.py", "dialect": "seesaw", "fn": "parse_seesaw_string",
        "fn_file": "parse_seesaw_file", "build": build, "norm_tree": lambda t: t, "rule": RULE, "kinds": st.KINDS}
-PARTIAL = ['C19_roundtrip_output_fluor_full: OUTPUT(...) = Fluor[N]', 'round trip of seesaw[..], conc[wire|gate|threshold, x*c], inputfanout, seesawOR, seesawAND: no Coq rendering yet (reporter and INPUT are proved; all kinds are checked on the implementation and in the correspondence)', 'rejection theorems other than `input bound to a fluorophore` (wrong number/kind of arguments, negative concentrations): checked on the implementation and in the correspondence only', 'C19_default_fuel_suffices_full']
+PARTIAL = [
+    "rejection of a wrong number / kind of arguments for statement kinds other than reporter, and of a bad concentration on gate / threshold targets: checked on the implementation and in the correspondence only (proved: reporter argument faults, negative / missing concentration on a wire, input bound to a fluorophore)",
+]
 
 
 def run(ctx):
